@@ -251,6 +251,70 @@ def case(spec):
             "sample": {"coin": coin, "competitor": spec["cls"], "pos": spec["pos"], "order": spec["order"], "length": spec.get("length", 1), "extras": spec.get("extras")}}
 
 
+def grow_case(spec):
+    """The data directory of a RUNNING node: between two runs of the tool the node connects more blocks (new records, written in a later
+    database session: they sit in LevelDB's log, the tables are unchanged) and learns of more headers. Every run must deliver the active
+    chain of the index as it is at that moment."""
+    import struct
+    coin = spec["coin"]
+    rng = random.Random("C04grow|%s|%s" % (spec["seed"], spec["n"]))
+    cb = gen.ChainBuilder(rng, coin)
+    T = spec.get("blocks", 12)
+    for _ in range(T):
+        cb.add_block(n_tx=rng.randint(0, 2), version=rng.choice([1, 2, 4]))
+    chain = cb.chain()
+    work = harness.fresh(os.path.join(spec["work"], "c%d" % spec["n"]))
+    d = os.path.join(work, "d")
+    stages = spec["stages"]            # tip heights after each node session
+    first = stages[0]
+    placements = [Placement(b, h, file=0, status=ACTIVE) for h, b in chain if h <= first]
+    ho = [HeaderOnly(b, h, VALID_TREE, 0) for h, b in chain if first < h <= min(T - 1, first + 2)]     # headers of the next blocks are known already
+    datadir.write_datadir(d, COINS[coin], placements, header_only=ho, index_opts={"write_buffer": 4096, "sessions": 2})
+    binary = core.build("release")
+    v, runs = [], 0
+    magic = struct.pack("<I", COINS[coin].magic)
+    have = first
+    for si, tip in enumerate(stages):
+        if tip > have:
+            # node session: blocks have+1..tip are stored in a new blk file and their records (re)written with data
+            fno = si
+            pairs = []
+            with open(os.path.join(d, datadir.default_name(fno)), "wb") as f:
+                for h, b in chain:
+                    if have < h <= tip:
+                        raw = b.ser()
+                        f.write(magic + struct.pack("<I", len(raw)))
+                        off = f.tell()
+                        f.write(raw)
+                        pairs.append((b"b" + b.hash, datadir.index_value(h, ACTIVE, len(b.txs), b.header(), fno, off, 8)))
+            for h, b in chain:
+                if tip < h <= min(T - 1, tip + 2):
+                    pairs.append((b"b" + b.hash, datadir.index_value(h, VALID_TREE, 0, b.header())))
+            datadir.write_index(os.path.join(d, "index"), pairs, append=True)
+            have = tip
+        active = [(h, b) for h, b in chain if h <= have]
+        for cbname in spec["callbacks"]:
+            dump = harness.fresh(os.path.join(work, "o"))
+            log = os.path.join(work, "ev.jsonl")
+            p = harness.run_cb(binary, d, coin, cbname, dump, log=log, timeout=300)
+            runs += 1
+            what = "[%s, run after node session %d: tip %d, %d blocks known at the first run; coin=%s]" % (cbname, si, have, first + 1, coin)
+            if p.rc != 0:
+                v.append(viol("growing-directory", "run failed (exit %s) %s: %s" % (p.rc, what, (p.err or p.out)[-300:].replace("\n", " | "))))
+                continue
+            got = [e["hash"] for e in harness.read_events(log) if e["ev"] == "deliver"]
+            want = [b.hash_hex for _, b in active]
+            if got != want:
+                v.append(viol("growing-directory", "delivered sequence is not the active chain %s: %d blocks delivered, %d active" % (what, len(got), len(want))))
+                continue
+            bad = oracles.check_csvdump(p, dump, active, coin) if cbname == "csvdump" else oracles.check_unspent(p, dump, active, coin)
+            v.extend(viol("growing-directory", "%s: %s %s" % (s_, det, what)) for s_, det in bad[:1])
+    shutil.rmtree(work, ignore_errors=True)
+    return {"evaluations": runs, "violations": v[:2], "shapes": ["growing-directory|%d-stages|%s" % (len(stages), coin)],
+            "counters": {"runs": runs, "cases:growing_directory": 1, "node_sessions_between_runs": len(stages) - 1},
+            "sample": {"kind": "growing-directory", "coin": coin, "stages": stages}}
+
+
 def plan(chk):
     rng = chk.rng("plan")
     specs = []
@@ -291,7 +355,15 @@ def plan(chk):
                 add(cls=cls, pos="occupied_height", order=order, length=1, at_tip=True)
             for length in (1, 2):
                 add(cls=cls, pos="beyond_tip", order="n/a", length=length)
+    for i in range(12 if chk.thorough else 3):
+        n += 1
+        specs.append(dict(case="grow", seed=chk.seed, n=n, coin=COIN_NAMES[(chk.seed + i) % 8], blocks=12, stages=[[6, 9, 11], [3, 4, 11], [8, 8, 10]][i % 3],
+                          callbacks=["csvdump"] if i % 2 else ["csvdump", "unspentcsvdump"]))
     return specs
+
+
+def _dispatch(spec):
+    return grow_case(spec) if spec.get("case") == "grow" else case(spec)
 
 
 def main():
@@ -301,13 +373,13 @@ def main():
     specs = plan(chk)
     for sp in specs:
         sp["work"] = chk.workdir
-    for res in core.parallel(case, specs):
+    for res in core.parallel(_dispatch, specs):
         chk.absorb(res)
-    chk.finish(RULE, floor={"cases:benign": 10, "cases:stale_with_data": 10, "cases:reorged_out": 10, "cases:failed_with_data": 10, "header_only_records": 50},
+    chk.finish(RULE, floor={"cases:benign": 10, "cases:stale_with_data": 10, "cases:reorged_out": 10, "cases:failed_with_data": 10, "header_only_records": 50, "cases:growing_directory": 3},
                assumptions=["status values follow Bitcoin Core's BlockStatus (validity level in the low 3 bits, HAVE_DATA=8, HAVE_UNDO=16, FAILED_VALID=32, FAILED_CHILD=64)",
                             "header-only records use realistic header versions",
                             "one data-bearing competitor class per index, so that a violation is attributed to exactly one known-finding signature"])
 
 
 def replay(spec):
-    core.replay_case("C04", {"case": case}, spec)
+    core.replay_case("C04", {"case": case, "grow": grow_case}, spec)
